@@ -24,5 +24,5 @@ for i in range(n):
         for m in ms:
             for (idx,msg) in m(v)[:2]:
                 print("VIOL", pid, variant, seed0+i, idx, msg)
-    if bad>=2: break
+    if bad>=int(sys.argv[5]) if len(sys.argv)>5 else bad>=2: break
 print(prof, variant, "traces", i+1, "ops", ops, "bad", bad, "chunkruns", len(tr.chunk_results), "time %.1f"%(time.time()-t0))
